@@ -172,7 +172,18 @@ func stubScopedCachePath(so ServiceOptions) string { return "cache" }
 var vRequestURI = map[*url.URL]string{}
 
 //verif:stub (*net/url.URL).RequestURI
-func stubRequestURI(u *url.URL) string { return vRequestURI[u] }
+func stubRequestURI(u *url.URL) string {
+	if s, ok := vRequestURI[u]; ok {
+		return s
+	}
+	if vRealRequestURI {
+		return u.RequestURI() // the real method (a stub may call the function it replaces)
+	}
+	return ""
+}
+
+// vRealRequestURI: URLs without a scripted request URI get the one net/url computes (HarnessSubpathRedirect).
+var vRealRequestURI bool
 
 type vRedirect struct {
 	url  string
